@@ -77,9 +77,12 @@ prop('C08', COMMON +
      'from the chain of productions that build Binary nodes) and the printer precedence table (read from its '
      'discriminant switch) are compared on all 91 operator pairs. LITERAL-PARITY: every content transformation on the '
      'parser\'s string-literal path has its inverse on the printer\'s. PAREN-ASSOC: every parenthesis decision for the '
-     'right operand of a Binary node parenthesises at equal precedence (the parser is left-associative). Does not decide layout or the commutative '
-     'right-operand shortcut.',
-     [printer_rules.run_prec_iso, printer_rules.run_literal_parity, printer_rules.run_paren_assoc, type_walker.make(('samlang_printer',), 1), TI.make(['T-prt'])])
+     'right operand of a Binary node parenthesises at equal precedence (the parser is left-associative). PAREN-SINK: every '
+     'child printed in an undelimited position (unary operand, binary operands, lambda body, chain base) reaches the '
+     'precedence decider; the plain printer may take a left operand only behind an equal-precedence test and a right operand '
+     'only behind same-operator + associative-operator tests (reported as the known regrouping finding). TYPE-WALKER: the '
+     'annotation printer visits every child position. Does not decide layout.',
+     [printer_rules.run_prec_iso, printer_rules.run_literal_parity, printer_rules.run_paren_assoc, printer_rules.run_paren_sink, type_walker.make(('samlang_printer',), 1), TI.make(['T-prt'])])
 
 prop('C09', COMMON +
      'Clause "every comment is kept". COMMENT-LINEAR: linear-resource typestate dataflow over the parser MIR (Vec<Comment> '
